@@ -26,6 +26,14 @@ def collide_gnu(name):
     return alt.decode('utf-8') if elfraw.gnu_hash(alt) == elfraw.gnu_hash(b) else None
 
 
+def _tail_host(offs, nm):
+    """Offset at which `nm` can be read as the tail of a longer string already stored (whole strings only), or None."""
+    for s2, o in offs.items():
+        if s2 != nm and s2.endswith(nm) and len(s2) > len(nm):
+            return o + len(s2.encode('utf-8')) - len(nm.encode('utf-8'))
+    return None
+
+
 def gen_names(r, n):
     pool = []
     while len(pool) < n:
@@ -42,6 +50,10 @@ def gen_names(r, n):
             nm = collide_gnu(r.choice(pool)) or 'c%x' % r.getrandbits(20)
         elif c == 5:
             nm = '_Z%dx%s' % (r.randrange(1, 9), 'v' * r.randrange(1, 6))
+        elif c == 6 and pool:
+            # a longer name with an existing name as its tail and multi-byte characters before it: a linker stores the shorter one
+            # only as the tail of this one (byte offsets into the string differ from character offsets)
+            nm = r.choice(['größe_', '名前.', 'é']) + r.choice(pool)
         else:
             nm = 'f%x' % r.getrandbits(r.choice([4, 8, 16]))
         if nm and nm not in pool:
@@ -79,6 +91,11 @@ def build(r):
     for nm in order:
         if nm in offs and r.random() < 0.5:
             sym_off.append(offs[nm])
+            continue
+        host = _tail_host(offs, nm) if nm else None
+        if host is not None and r.random() < 0.7:
+            offs[nm] = host
+            sym_off.append(host)
             continue
         offs[nm] = len(strtab)
         sym_off.append(offs[nm])
@@ -225,8 +242,14 @@ def build_dynamic(r):
     soname = r.choice([None, 'libself.so.1'])
     rpath = r.choice([None, '/opt/lib:$ORIGIN'])
     for nm in order:
+        host = _tail_host(offs, nm)
+        if nm in offs:
+            continue
+        if host is not None and r.random() < 0.7:
+            offs[nm] = host
+            continue
         if r.random() < 0.25:
-            pre = 'pre_%x_' % r.getrandbits(8)
+            pre = r.choice(['pre_%x_', 'pré_%x_']) % r.getrandbits(8)
             offs[nm] = len(strtab) + len(pre.encode())
             strtab += (pre + nm).encode('utf-8') + b'\0'
         else:
